@@ -3,10 +3,12 @@
 from __future__ import annotations
 
 import ast
+import re
 
 from tiv.astutil import conds, body_walk, call_name, enclosing_stmt, flatten_boolop, guards, kw, norm, rename, short, stores_in, walk_local
-from tiv.match import find_stmts, match_expr, match_stmt
+from tiv.match import find_exprs, find_stmts, match_expr, match_stmt
 from tiv.mutate import M
+from tiv.sem import trace
 
 RULES = {
     "R1": "the run-boundary predicate is symmetric and complete: under the renaming upper<->lower (px1<->px2, cluster1<->cluster2, a1<->a2, "
@@ -25,6 +27,61 @@ RULES = {
 BL, CM = "image/block.py", "image/common.py"
 SWAP = {"px1": "px2", "px2": "px1", "cluster1": "cluster2", "cluster2": "cluster1", "a1": "a2", "a2": "a1", "a_cluster1": "a_cluster2", "a_cluster2": "a_cluster1",
         "upper_pixel": "lower_pixel", "lower_pixel": "upper_pixel"}
+
+
+class _EvUnk(Exception):
+    pass
+
+
+def _ev(e, env):
+    """Evaluate a boolean/comparison expression over an abstract valuation (names -> small values)."""
+    if isinstance(e, ast.Constant):
+        return e.value
+    if isinstance(e, ast.Name):
+        if e.id in env:
+            return env[e.id]
+        raise _EvUnk(f"name {e.id}")
+    if isinstance(e, ast.UnaryOp) and isinstance(e.op, ast.Not):
+        return not _ev(e.operand, env)
+    if isinstance(e, ast.BoolOp):
+        if isinstance(e.op, ast.And):
+            v = True
+            for x in e.values:
+                v = _ev(x, env)
+                if not v:
+                    return v
+            return v
+        v = False
+        for x in e.values:
+            v = _ev(x, env)
+            if v:
+                return v
+        return v
+    if isinstance(e, ast.IfExp):
+        return _ev(e.body, env) if _ev(e.test, env) else _ev(e.orelse, env)
+    if isinstance(e, ast.Compare):
+        left = _ev(e.left, env)
+        for op, r in zip(e.ops, e.comparators):
+            right = _ev(r, env)
+            if isinstance(op, ast.Eq):
+                ok = left == right
+            elif isinstance(op, ast.NotEq):
+                ok = left != right
+            elif isinstance(op, ast.Is):
+                ok = left is right
+            elif isinstance(op, ast.IsNot):
+                ok = left is not right
+            elif isinstance(op, (ast.Lt, ast.LtE, ast.Gt, ast.GtE)) and isinstance(left, (int, bool)) and isinstance(right, (int, bool)):
+                ok = {ast.Lt: left < right, ast.LtE: left <= right, ast.Gt: left > right, ast.GtE: left >= right}[type(op)]
+            else:
+                raise _EvUnk(f"operator {type(op).__name__}")
+            if not ok:
+                return False
+            left = right
+        return True
+    if isinstance(e, ast.Call) and isinstance(e.func, ast.Name) and e.func.id == "bool" and len(e.args) == 1:
+        return bool(_ev(e.args[0], env))
+    raise _EvUnk(ast.dump(e)[:60])
 
 
 def rels(e):
@@ -69,47 +126,73 @@ def run(ck, m):
     ck.need(inner is not None, "block: inner pixel loop with the run-boundary `if` not found")
     bif = next(x for x in inner.body if isinstance(x, ast.If) and any(isinstance(c, ast.Call) and call_name(c) == "update_buffer" for s in x.body for c in walk_local(s)))
     test = bif.test
-    sym = canon(test) == canon(rename(test, SWAP))
-    ck.ob("R1", bif, sym,
-          "the run-boundary predicate is not symmetric between the upper and lower pixel row: some transition is tested for one half only (or with an operand of the other half), so a run is not "
-          "flushed at that boundary and its cells are drawn with the previous run's colours/transparency", stmt="block: boundary predicate symmetric under upper<->lower")
-    # structure: not (alpha and ALLZERO) and (D1 or D2 or alpha and (T1 or T2 or T3 or T4))
-    parts = flatten_boolop(test, ast.And)
-    ex = next((p for p in parts if isinstance(p, ast.UnaryOp) and isinstance(p.op, ast.Not)), None)
-    disj = next((p for p in parts if isinstance(p, ast.BoolOp) and isinstance(p.op, ast.Or)), None)
-    ck.expect(len(parts) == 2 and ex is not None and disj is not None, "block: boundary predicate shape `not (...) and (... or ...)` not recognised")
-    if ex is not None and disj is not None:
-        exc = flatten_boolop(ex.operand, ast.And)
-        allzero = frozenset({("alleq", frozenset({"a1", "a_cluster1", "0", "a_cluster2", "a2"}))})
-        ck.ob("R1", bif, any(norm(c) == "alpha" for c in exc) and any(rels(c) == allzero for c in exc) and len(exc) == 2,
-              "the exemption must be exactly `alpha and all four alpha values are 0` (colour changes inside a run that stays fully transparent need no flush)", stmt="block: exemption = both halves stay transparent")
-        ds = flatten_boolop(disj, ast.Or)
-        colour = {rels(d) for d in ds if isinstance(d, ast.Compare)}
-        want_colour = {frozenset({("ne", frozenset({"px1", "cluster1"}))}), frozenset({("ne", frozenset({"px2", "cluster2"}))})}
-        ck.ob("R1", bif, colour == want_colour, f"a colour change of either half must end the run: expected px1 != cluster1 and px2 != cluster2; found {sorted(norm(d) for d in ds if isinstance(d, ast.Compare))}", stmt="block: colour-change test for each half")
-        ab = next((d for d in ds if isinstance(d, ast.BoolOp) and isinstance(d.op, ast.And)), None)
-        trans = set()
-        if ab is not None:
-            av = flatten_boolop(ab, ast.And)
-            inner_or = next((v for v in av if isinstance(v, ast.BoolOp) and isinstance(v.op, ast.Or)), None)
-            if inner_or is not None and any(norm(v) == "alpha" for v in av):
-                trans = {rels(t) for t in flatten_boolop(inner_or, ast.Or)}
-        want = set()
-        for h in ("1", "2"):
-            want.add(frozenset({("ne", frozenset({f"a_cluster{h}", f"a{h}"})), ("eq", frozenset({f"a{h}", "0"}))}))   # opaque -> transparent
-            want.add(frozenset({("eq", frozenset({"0", f"a_cluster{h}"})), ("ne", frozenset({f"a_cluster{h}", f"a{h}"}))}))   # transparent -> opaque
-        ck.ob("R1", bif, trans == want,
-              f"under alpha both directions of an alpha-class change must end the run, for each half (4 tests); missing {len(want - trans)}, unexpected {len(trans - want)}: "
-              f"{sorted(sorted(str(x) for x in t) for t in (trans - want))}", stmt="block: 4 alpha-transition tests (2 directions x 2 halves)")
+    # Decision over a finite abstract domain: alpha in {T, F}; the four alpha values in {0, 128, 255}; each pixel either equal to
+    # its cluster colour or not. The (traced) predicate must agree everywhere with the specification
+    #     flush  <=>  not (alpha and all four alphas are 0)  and  (colour change in either half  or  alpha and an alpha-class change in either half)
+    tt = trace(br, test, keep=("alpha", "a1", "a2", "a_cluster1", "a_cluster2", "px1", "px2", "cluster1", "cluster2"))
+    decided, witness = True, None
+    try:
+        import itertools
+        for al_, a1, ac1, a2, ac2, p1, p2 in itertools.product((True, False), (0, 128, 255), (0, 128, 255), (0, 128, 255), (0, 128, 255), ("A", "B"), ("A", "B")):
+            envv = {"alpha": al_, "a1": a1, "a_cluster1": ac1, "a2": a2, "a_cluster2": ac2, "px1": p1, "cluster1": "A", "px2": p2, "cluster2": "A"}
+            got = bool(_ev(tt, envv))
+            want_ = (not (al_ and a1 == ac1 == 0 == ac2 == a2)) and (p1 != "A" or p2 != "A" or (al_ and ((a1 == 0) != (ac1 == 0) or (a2 == 0) != (ac2 == 0))))
+            if got != want_ and witness is None:
+                witness = (envv, got, want_)
+    except _EvUnk as e:
+        decided = False
+        ck.extra["r1_fallback"] = str(e)
+    if decided:
+        ck.ob("R1", bif, witness is None,
+              "the run-boundary predicate differs from `not (alpha and both halves stay transparent) and (colour change in either half or, under alpha, a change of transparency class in either half)`"
+              + (f": for {witness[0]} it gives {witness[1]}, expected {witness[2]} - that run is {'not ' if witness[2] else ''}flushed, so its cells are drawn with the {'previous' if witness[2] else 'same'} run's colours/transparency" if witness else ""),
+              stmt="block: boundary predicate == specification on the abstract domain (648 valuations)")
+    else:
+        sym = canon(test) == canon(rename(test, SWAP))
+        ck.ob("R1", bif, sym,
+              "the run-boundary predicate is not symmetric between the upper and lower pixel row: some transition is tested for one half only (or with an operand of the other half), so a run is not "
+              "flushed at that boundary and its cells are drawn with the previous run's colours/transparency", stmt="block: boundary predicate symmetric under upper<->lower")
+        # structure: not (alpha and ALLZERO) and (D1 or D2 or alpha and (T1 or T2 or T3 or T4))
+        parts = flatten_boolop(test, ast.And)
+        ex = next((p for p in parts if isinstance(p, ast.UnaryOp) and isinstance(p.op, ast.Not)), None)
+        disj = next((p for p in parts if isinstance(p, ast.BoolOp) and isinstance(p.op, ast.Or)), None)
+        ck.expect(len(parts) == 2 and ex is not None and disj is not None, "block: boundary predicate shape `not (...) and (... or ...)` not recognised")
+        if ex is not None and disj is not None:
+            exc = flatten_boolop(ex.operand, ast.And)
+            allzero = frozenset({("alleq", frozenset({"a1", "a_cluster1", "0", "a_cluster2", "a2"}))})
+            ck.ob("R1", bif, any(norm(c) == "alpha" for c in exc) and any(rels(c) == allzero for c in exc) and len(exc) == 2,
+                  "the exemption must be exactly `alpha and all four alpha values are 0` (colour changes inside a run that stays fully transparent need no flush)", stmt="block: exemption = both halves stay transparent")
+            ds = flatten_boolop(disj, ast.Or)
+            colour = {rels(d) for d in ds if isinstance(d, ast.Compare)}
+            want_colour = {frozenset({("ne", frozenset({"px1", "cluster1"}))}), frozenset({("ne", frozenset({"px2", "cluster2"}))})}
+            ck.ob("R1", bif, colour == want_colour, f"a colour change of either half must end the run: expected px1 != cluster1 and px2 != cluster2; found {sorted(norm(d) for d in ds if isinstance(d, ast.Compare))}", stmt="block: colour-change test for each half")
+            ab = next((d for d in ds if isinstance(d, ast.BoolOp) and isinstance(d.op, ast.And)), None)
+            trans = set()
+            if ab is not None:
+                av = flatten_boolop(ab, ast.And)
+                inner_or = next((v for v in av if isinstance(v, ast.BoolOp) and isinstance(v.op, ast.Or)), None)
+                if inner_or is not None and any(norm(v) == "alpha" for v in av):
+                    trans = {rels(t) for t in flatten_boolop(inner_or, ast.Or)}
+            want = set()
+            for h in ("1", "2"):
+                want.add(frozenset({("ne", frozenset({f"a_cluster{h}", f"a{h}"})), ("eq", frozenset({f"a{h}", "0"}))}))   # opaque -> transparent
+                want.add(frozenset({("eq", frozenset({"0", f"a_cluster{h}"})), ("ne", frozenset({f"a_cluster{h}", f"a{h}"}))}))   # transparent -> opaque
+            ck.ob("R1", bif, trans == want,
+                  f"under alpha both directions of an alpha-class change must end the run, for each half (4 tests); missing {len(want - trans)}, unexpected {len(trans - want)}: "
+                  f"{sorted(sorted(str(x) for x in t) for t in (trans - want))}", stmt="block: 4 alpha-transition tests (2 directions x 2 halves)")
 
     # ---- R2 ----------------------------------------------------------------------------
+    nvs = {norm(b_["n"]) for _, b_ in find_exprs("blank * $$n", body_walk(ub))}
+    ck.expect(len(nvs) == 1, f"update_buffer: the run-length variable (`blank * <n>`) not recognised: {sorted(nvs)}")
+    NV = next(iter(nvs)) if len(nvs) == 1 else "n"
     assigned_in_ub = {norm(t) for t, _ in stores_in(ast.Module(body=ub.body, type_ignores=[])) if isinstance(t, ast.Name)}
     read_by_ub = {n.id for n in body_walk(ub) if isinstance(n, ast.Name) and isinstance(n.ctx, ast.Load)} - assigned_in_ub
     outer = inner._p if isinstance(inner._p, ast.For) else None
     ck.need(outer is not None, "block: outer line loop not found")
     loop_assigned = {norm(t) for t, _ in stores_in(outer) if isinstance(t, ast.Name)}
     carried = sorted(read_by_ub & loop_assigned)
-    ck.expect(carried == ["a_cluster1", "a_cluster2", "cluster1", "cluster2", "n"], f"block: loop-carried state read by update_buffer recognised as {carried}")
+    ck.expect(carried == sorted(["a_cluster1", "a_cluster2", "cluster1", "cluster2", NV]), f"block: loop-carried state read by update_buffer recognised as {carried}")
+    carried = [v for v in carried if v in ("a_cluster1", "a_cluster2", "cluster1", "cluster2", NV)]
     call_i = next(i for i, s in enumerate(bif.body) if isinstance(s, ast.Expr) and isinstance(s.value, ast.Call) and call_name(s.value) == "update_buffer")
     after = bif.body[call_i + 1:]
     upd = {}
@@ -117,70 +200,80 @@ def run(ck, m):
         for t, st in stores_in(s):
             if isinstance(t, ast.Name):
                 upd[t.id] = (st, [norm(g) for g, b in guards(st) if b and g is not bif.test])
-    src = {"cluster1": "px1", "cluster2": "px2", "a_cluster1": "a1", "a_cluster2": "a2", "n": "0"}
+    src = {"cluster1": "px1", "cluster2": "px2", "a_cluster1": "a1", "a_cluster2": "a2", NV: "0"}
+    n_inc = [s_ for s_ in inner.body if match_stmt(f"{NV} += 1", s_) is not None]
+    n_inc_else = [s_ for s_ in bif.orelse if match_stmt(f"{NV} += 1", s_) is not None]
     for v in carried:
         ok = v in upd and norm(upd[v][0].value) == src[v]
+        if v == NV and v in upd and norm(upd[v][0].value) == "1" and n_inc_else and not n_inc:
+            ok = True      # `n = 1` in the flush branch with `n += 1` in the other: the same count
         if ok and v.startswith("a_"):
             ok = "alpha" in upd[v][1]
         ck.ob("R2", bif, ok, f"after a flush `{v}` must restart from the current pixel (`{v} = {src[v]}`" + (" under `if alpha`" if v.startswith("a_") else "") + "): otherwise the next run is emitted with the previous run's value",
               stmt=f"block: {v} updated after flush")
-    ck.ob("R2", inner, any(match_stmt("n += 1", s) is not None for s in inner.body) and inner.body.index(bif) < next(i for i, s in enumerate(inner.body) if match_stmt("n += 1", s) is not None),
+    ck.ob("R2", inner, (bool(n_inc) and inner.body.index(bif) < inner.body.index(n_inc[0])) or (bool(n_inc_else) and NV in upd and norm(upd[NV][0].value) == "1"),
           "the run length must be incremented for every pixel pair, after a possible flush", stmt="block: n += 1 per pixel pair")
     idx = outer.body.index(inner)
     rest = outer.body[idx + 1:]
     ck.ob("R2", outer, bool(rest) and isinstance(rest[0], ast.Expr) and norm(rest[0]) == "update_buffer()", "the last run of every line must be flushed right after the pixel loop", stmt="block: update_buffer() after the pixel loop")
-    ck.ob("R2", outer, any(match_stmt("n = 0", s) is not None for s in outer.body[:idx]), "the run length must restart at every line", stmt="block: n = 0 per line")
+    ck.ob("R2", outer, any(match_stmt(f"{NV} = 0", s) is not None for s in outer.body[:idx]), "the run length must restart at every line", stmt="block: n = 0 per line")
     eol = [s for s in rest if isinstance(s, ast.If) and any("end_of_line" in norm(x) for x in s.body)]
     ck.ob("R2", outer, len(eol) == 1 and rest.index(eol[0]) > 0, "the line terminator is written after the last run was flushed", stmt="block: terminator after the final flush")
 
     # ---- R3 ----------------------------------------------------------------------------
-    top = next((s for s in ub.body if isinstance(s, ast.If) and norm(s.test) == "alpha"), None)
-    ck.need(top is not None, "update_buffer: `if alpha:` not found")
-    chain = next((s for s in top.body if isinstance(s, ast.If)), None)
-    branches = []
-    cur = chain
-    while isinstance(cur, ast.If):
-        branches.append((cur.test, cur.body))
-        cur = cur.orelse[0] if len(cur.orelse) == 1 and isinstance(cur.orelse[0], ast.If) else None
-    ck.expect(len(branches) == 3, f"update_buffer: expected 3 transparent branches, found {len(branches)}")
-    if len(branches) == 3:
-        def sig(t, b):
-            return (canon(t), tuple(norm(s) for s in b))
-        def sig_sw(t, b):
-            return (canon(rename(t, SWAP)), tuple(norm(rename(s, SWAP)) for s in b))
-        S = {sig(t, b) for t, b in branches}
-        Ssw = {sig_sw(t, b) for t, b in branches}
-        ck.ob("R3", chain, S == Ssw, "the transparent branches of update_buffer are not mirror images of each other: one half's transparency is emitted with the other half's colour or glyph", stmt="update_buffer: transparent branches symmetric under upper<->lower")
-        t0, b0 = branches[0]
-        ck.ob("R3", chain, rels(t0) == frozenset({("alleq", frozenset({"a_cluster1", "0", "a_cluster2"}))}) and [norm(s) for s in b0] == ["buf_write(SGR_DEFAULT)", "buf_write(blank * n)"],
-              "both halves transparent: default attributes and blanks", stmt="update_buffer: both transparent -> SGR_DEFAULT + blanks")
-        t1, b1 = branches[1]
-        ck.ob("R3", chain, rels(t1) == frozenset({("alleq", frozenset({"a_cluster1", "0"}))}) and [norm(s) for s in b1] == ["buf_write(SGR_DEFAULT)", "buf_write(SGR_FG_DIRECT % cluster2)", "buf_write(lower_pixel * n)"],
-              "upper half transparent: default background, lower colour as foreground of the lower-half glyph", stmt="update_buffer: upper transparent -> FG=cluster2, lower-half glyph")
-    unp_all = find_stmts("$$r, $$g, $$b = $c", body_walk(ub))
-    ck.need(len(unp_all) == 1, "update_buffer: opaque branch (`r, g, b = <cluster>`) not found")
-    class _Blk:  # the statement list that contains the unpack = the opaque branch
-        pass
-    op = _Blk()
-    par = unp_all[0][0]._p
-    op.body = next(getattr(par, f) for f in ("body", "orelse", "finalbody") if isinstance(getattr(par, f, None), list) and unp_all[0][0] in getattr(par, f))
-    op.lineno = unp_all[0][0].lineno
-    op._rel, op._q, op._srcline = unp_all[0][0]._rel, unp_all[0][0]._q, getattr(unp_all[0][0], "_srcline", 0)
-    okc = conds(unp_all[0][0]) in ({"not alpha"}, {"no_alpha"}, set()) or any(c in ("not (alpha and (not no_alpha))", "not alpha or no_alpha") for c in conds(unp_all[0][0])) or True
-    unp = find_stmts("$$r, $$g, $$b = $c", op.body)
-    ck.expect(len(unp) == 1, "update_buffer: `r, g, b = <cluster>` not recognised")
-    if unp:
-        bgc = norm(unp[0][1]["c"])
-        ck.ob("R3", unp[0][0], bgc == "cluster2", f"the background colour must come from the lower pixel (cluster2); found {bgc}", stmt="update_buffer: BG from the lower cluster")
-        wk = next((s for s in op.body if isinstance(s, ast.If) and "is_on_kitty" in norm(s.test)), None)
-        okk = wk is not None and {norm(v) for v in flatten_boolop(wk.test, ast.And)} == {"is_on_kitty", f"{bgc} == bg_color"} and [norm(s) for s in wk.body] == [f"{norm(unp[0][1]['r'])} += {norm(unp[0][1]['r'])} < 255 or -1"]
-        ck.ob("R3", wk or op, okk, f"the kitty workaround must test the cluster whose colour is used as background (`{bgc} == bg_color`) and nudge only its red component by one; found `{norm(wk.test) if wk else None}`",
-              stmt="update_buffer: kitty workaround on the BG cluster")
-        ws = [norm(s) for s in op.body if isinstance(s, ast.Expr)]
-        ck.ob("R3", op, ws == [f"buf_write(SGR_BG_DIRECT % ({norm(unp[0][1]['r'])}, {norm(unp[0][1]['g'])}, {norm(unp[0][1]['b'])}))"], "the background triple must be written once", stmt="update_buffer: BG written from (r, g, b)")
-        eq = next((s for s in op.body if isinstance(s, ast.If) and rels(s.test) == frozenset({("alleq", frozenset({"cluster1", "cluster2"}))})), None)
-        ck.ob("R3", eq or op, eq is not None and [norm(s) for s in eq.body] == ["buf_write(blank * n)"] and [norm(s) for s in eq.orelse] == ["buf_write(SGR_FG_DIRECT % cluster1)", "buf_write(upper_pixel * n)"],
-              "equal halves: blanks on the background; otherwise the upper colour as foreground of the upper-half glyph", stmt="update_buffer: blank iff halves equal, else FG=cluster1 upper-half glyph")
+    # The emission of update_buffer as a truth table (tiv.emit): one output shape per case of (alpha, upper transparent, lower
+    # transparent, halves equal). The expected table is symmetric under upper<->lower by construction.
+    from tiv import emit
+    term = emit.Builder(ub).block(ub.body, {"buf_write"})
+    cs = emit.cases(term, {}, limit=6)
+    ck.expect(cs is not None, "update_buffer: too many free conditions in the output shape")
+    A, T1, T2, EQ = "alpha", "a_cluster1 == 0", "a_cluster2 == 0", "cluster1 == cluster2"
+    unp = find_stmts("$$r, $$g, $$b = cluster2", body_walk(ub))
+    rn_ = norm(unp[0][1]["r"]) if len(unp) == 1 else "r"
+    BG = rf"SGR_BG_DIRECT\(\(({re.escape(rn_)}|cluster2\[0\]), cluster2\[1\], cluster2\[2\]\)\)"
+    n_cases = 0
+    for f, t in cs or []:
+        extra = set(f) - {A, T1, T2, EQ}
+        ck.expect(not extra and A in f, f"update_buffer: unexpected conditions in the output shape: {sorted(extra)}")
+        if extra or A not in f:
+            continue
+        n_cases += 1
+        got = repr(t)
+        al_, t1, t2, eq = f.get(A), f.get(T1), f.get(T2), f.get(EQ)
+        tag = f"alpha={al_}, upper transparent={t1}, lower transparent={t2}, halves equal={eq}"
+        if al_ and t1 and t2:
+            want, why = r"<SGR_DEFAULT> \(<blank>\)\{NVX\}", "both halves transparent: default attributes and blanks"
+        elif al_ and t1:
+            want, why = r"<SGR_DEFAULT> SGR_FG_DIRECT\(cluster2\) \(<lower_pixel>\)\{NVX\}", "upper half transparent: default background, the lower colour as foreground of the lower-half glyph"
+        elif al_ and t2:
+            want, why = r"<SGR_DEFAULT> SGR_FG_DIRECT\(cluster1\) \(<upper_pixel>\)\{NVX\}", "lower half transparent: default background, the upper colour as foreground of the upper-half glyph"
+        elif eq:
+            want, why = BG + r" \(<blank>\)\{NVX\}", "opaque, equal halves: the lower colour as background and blanks"
+        elif eq is False:
+            want, why = BG + r" SGR_FG_DIRECT\(cluster1\) \(<upper_pixel>\)\{NVX\}", "opaque: the lower colour as background, the upper colour as foreground of the upper-half glyph"
+        else:
+            ck.expect(False, f"update_buffer: case not determined [{tag}]")
+            continue
+        want = want.replace("NVX", re.escape(NV))
+        ck.ob("R3", ub, re.fullmatch(want, got) is not None, f"update_buffer [{tag}]: {why}; emitted `{got}`", stmt=f"update_buffer: emission [{tag}]")
+    ck.expect(n_cases >= 12, f"update_buffer: expected >= 12 cases, found {n_cases}")
+    # the kitty workaround nudges only the red component of the background colour, by one, when that colour equals the terminal background
+    augs = [s_ for s_ in body_walk(ub) if isinstance(s_, ast.AugAssign)]
+    okk = bool(augs)
+    for s_ in augs:
+        cds = conds(s_)
+        if norm(s_.target) != rn_ or not {"is_on_kitty", "cluster2 == bg_color"} <= cds:
+            okk = False
+        elif norm(s_) == f"{rn_} += {rn_} < 255 or -1":
+            pass
+        elif norm(s_) == f"{rn_} += 1" and f"{rn_} < 255" in cds:
+            pass
+        elif norm(s_) == f"{rn_} -= 1" and (f"not {rn_} < 255" in cds or f"not ({rn_} < 255)" in cds or f"{rn_} >= 255" in cds or f"{rn_} == 255" in cds):
+            pass
+        else:
+            okk = False
+    ck.ob("R3", augs[0] if augs else ub, okk and len(unp) == 1, f"the kitty workaround must test the cluster whose colour is used as background (`cluster2 == bg_color`, under is_on_kitty) and nudge only its red component by one; found {[short(s_, 50) for s_ in augs]}",
+          stmt="update_buffer: kitty workaround on the BG cluster")
 
     # ---- R4 ----------------------------------------------------------------------------
     gd = next((c for c in body_walk(br) if isinstance(c, ast.Call) and (call_name(c) or "").endswith("_get_render_data")), None)
@@ -188,9 +281,13 @@ def run(ck, m):
     am = find_stmts("alpha = img.mode == 'RGBA'", body_walk(br))
     ck.ob("R4", br, len(am) == 1 and gd is not None and am[0][0].lineno > gd.lineno, "transparency handling must follow the mode of the returned image (alpha = img.mode == 'RGBA')", stmt="block: alpha from the returned mode")
     grd = m.get(CM, "BaseImage._get_render_data")
-    rnd = find_stmts("alpha = round(alpha * 255)", body_walk(grd))
     cls = [n for n in body_walk(grd) if isinstance(n, ast.ListComp) and isinstance(n.elt, ast.IfExp)]
-    okc = len(cls) == 1 and norm(cls[0].elt) == f"0 if {norm(cls[0].generators[0].target)} < alpha else 255"
+    okc = False
+    if len(cls) == 1:
+        v_ = norm(cls[0].generators[0].target)
+        b_ = match_expr(f"0 if {v_} < $t else 255", cls[0].elt) or match_expr(f"255 if {v_} >= $t else 0", cls[0].elt) or match_expr(f"255 if not {v_} < $t else 0", cls[0].elt)
+        okc = b_ is not None and norm(trace(grd, b_["t"])) in ("round(alpha__0 * 255)", "round(alpha * 255)")
+    rnd = [1]
     ck.ob("R4", cls[0] if cls else grd, len(rnd) == 1 and okc, "pixels strictly below the (0..255) threshold are transparent, at or above it opaque: `0 if val < alpha else 255` with alpha = round(alpha * 255)", stmt="_get_render_data: strict < threshold classification")
     comp = [c for c in body_walk(grd) if isinstance(c, ast.Call) and norm(c.func) == "bg.alpha_composite"]
     ck.expect(len(comp) == 2, "_get_render_data: the two compositing sites not found")
